@@ -992,15 +992,29 @@ func (e *Engine) execRange(st *State, s *ast.RangeStmt, label string) ([]outcome
 	delete(mod, keyObj)
 	delete(mod, valObj)
 	switch u := coll.Ty.Underlying().(type) {
-	case *types.Slice, *types.Array, *types.Pointer:
+	case *types.Slice, *types.Array, *types.Pointer, *types.Basic:
 		if p, ok := u.(*types.Pointer); ok {
 			coll = Val{smt.App(smt.V, "select", st.heap, coll.T), p.Elem()}
 		}
-		n, err := e.lenOf(coll)
-		if err != nil {
-			return nil, e.errf(s.Pos(), "%v", err)
+		var n smt.T
+		var et types.Type
+		if b, ok := u.(*types.Basic); ok && b.Info()&types.IsString != 0 {
+			return e.execRangeString(st, s, label, coll, mod, heapW, keyObj, valObj)
 		}
-		et := elemType(coll.Ty)
+		if b, ok := u.(*types.Basic); ok {
+			// range over an integer (Go 1.22): i = 0 .. n-1, no iteration for n <= 0
+			if b.Info()&types.IsInteger == 0 || coll.T.Sort != smt.Int || s.Value != nil {
+				return nil, e.errf(s.Pos(), "range over %s is outside the subset", coll.Ty)
+			}
+			n = smt.Ite(smt.Lt(coll.T, smt.IntLit(0)), smt.IntLit(0), coll.T)
+		} else {
+			var err error
+			n, err = e.lenOf(coll)
+			if err != nil {
+				return nil, e.errf(s.Pos(), "%v", err)
+			}
+			et = elemType(coll.Ty)
+		}
 		bind := func(i smt.T) func(env *SpecEnv) {
 			return func(env *SpecEnv) {
 				env.Bound["$i"] = Val{i, types.Typ[types.Int]}
@@ -1142,10 +1156,6 @@ func (e *Engine) execRange(st *State, s *ast.RangeStmt, label string) ([]outcome
 			}
 		}
 		return res, nil
-	case *types.Basic:
-		if u.Info()&types.IsString != 0 {
-			return e.execRangeString(st, s, label, coll, mod, heapW, keyObj, valObj)
-		}
 	}
 	return nil, e.errf(s.Pos(), "range over %s is outside the subset", coll.Ty)
 }
